@@ -10,7 +10,7 @@ pub const DEF: PropDef = PropDef {
     rule: "mode A (7/8 of the cases): a word from a typed table covering the native dictionary (minus the tag words, the stubbed external words and exit; the printing words that honour the formatting tag - print println .s concat join str>number - only with tag maps that do not contain #fmt) is run on a clone of one prepared interpreter (binary input open with the cursor inside it, output intercepted) \
 once with plain arguments and once with the same arguments wrapped in generated tag maps (empty, scalar, tags on tags, with a #fmt entry; independently also on elements nested inside vector/map arguments). Arguments come from tuples that make the word succeed, and 1 case in 5 from arbitrary types so that the failing side is compared too. \
 Oracle: both succeed or both fail with the same error kind; result stacks equal cell by cell under the language's equality; input/offset/output/byte-order variables and stdout equal; for the computing words no result carries tags at top level. \
-mode B: a history of with-tags / insert-tag / remove-tag / get-tag / tags on a value against an association-list model: the value stays equal to the original, tags returns exactly the model map. \
+mode B: a history of with-tags / insert-tag / remove-tag / get-tag / tags and store-into-a-variable-holding-the-same-value / fetch on a value against an association-list model: the value stays equal to the original, tags returns exactly the model map. \
 Non-trivial = the plain run succeeds and a tag sits on an argument the word inspects (mode A), or >=2 tag operations (mode B); distinct = hash of word, arguments and tagging",
     assumptions: &[
         "tag-map keys are strings (keys of different types inside one tag map fall under C12's known finding)",
@@ -162,6 +162,11 @@ pub const TABLE: &[(&str, &str)] = &[
     ("concat", "Vs|V"),
     ("join", "Vs S|V S"),
     ("str>number", "Snum"),
+    // foreach over a (possibly tagged) collection, with the loop index words
+    ("foreach I loop", "V|M"),
+    ("foreach I drop loop depth", "Vn"),
+    ("foreach [ 5 6 ] foreach J I loop loop", "Vn|M"),
+    ("foreach 2 0 do J K drop loop loop", "Vn"),
     ("base32>", "E0"),
     ("base32hex>", "E1"),
     ("base64>", "E2"),
@@ -433,10 +438,21 @@ fn mode_b(ch: &mut Choices, ctx: &CaseCtx, out: &mut CaseOut) {
     xs.push_data(val::to_cell(&v0)).unwrap();
     let mut log = vec![format!("value: {}", val::src(&v0))];
     let n = 1 + ch.below(8);
+    let mut declared = false;
     let keys = ["a", "b", "len", "#fmt"];
     for _ in 0..n {
         let k = V::Str(keys[ch.below(4)].to_string());
-        let src = match ch.below(5) {
+        let src = match ch.below(6) {
+            5 => {
+                // through a variable that holds the same value under other (or no) tags: the tags travel with the value
+                if !declared {
+                    declared = true;
+                    let d = format!("{} var tv", val::src(&base));
+                    log.push(d.clone());
+                    let _ = guard(|| xs.eval(&d));
+                }
+                "! tv tv".to_string()
+            }
             0 => {
                 let x = val::gen_scalar(ch);
                 let mut t = tags.clone().unwrap_or_default();
